@@ -128,6 +128,19 @@ def apply_op(env, cat, mod, m, model, tag, ops):
             else:
                 model[g] = ("", None)
         m = mod.M(**kw)
+    elif op == "construct-many":
+        # keyword arguments naming two or three members of group g: the dataclass __init__ assigns in field order, the last one stays
+        members = groups["g"]
+        picked = [f for f in members if env.choose(tag + "ctor.pick." + f.name, 2)]
+        if len(picked) < 2:
+            env.cut("fewer than two members picked")
+        kw = {}
+        for f in picked:
+            v = _member_value(env, cat, f, tag + "ctor." + f.name)
+            kw[f.name] = _bp(mod, cat, f, v)
+            model["g"] = (f.name, v)
+        model["h"] = ("", None)
+        m = mod.M(**kw)
     return m, op
 
 
@@ -142,7 +155,7 @@ def h_history(env):
     model = {g: ("", None) for g in cat.shapes["M"].groups()}
     first = env.params.get("first")
     for i in range(env.params["steps"]):
-        ops = [first] if (i == 0 and first) else OPS
+        ops = [first] if (i == 0 and first) else env.params.get("then", OPS)
         m, op = apply_op(env, cat, mod, m, model, "s%d." % i, ops)
         observe_groups(env, cat, mod, m, model, "after-step")
     env.observe("bytes", bytes(m))
@@ -190,8 +203,11 @@ def units(tier):
     steps = 2 if tier == "quick" else 3
     for first in OPS:
         u.append(("history[%d steps, first=%s]" % (steps, first), h_history, {"steps": steps, "first": first}))
+    # a constructor given several members of one group, then further operations (3 steps: construct, assign, copy ...)
+    u.append(("history[3 steps, first=construct-many]", h_history, {"steps": 3, "first": "construct-many", "then": ["set-member", "copy", "deepcopy", "pickle", "parse"]}))
     if tier == "thorough":
         u.append(("history[4 steps]", h_history, {"steps": 4}))
+        u.append(("history[4 steps, first=construct-many]", h_history, {"steps": 4, "first": "construct-many"}))
     return u
 
 
@@ -204,4 +220,4 @@ BOUNDS = {
     "(values one byte wide, strings <= 1 code point)",
     "thorough": "histories of 3 operations for every first operation and of 4 operations (capped at 100000 paths)",
 }
-OUTSIDE = "constructors given two members of the same group (see known findings), shapes other than the two-group message, wide values"
+OUTSIDE = "shapes other than the two-group message, wide values, histories longer than the bound"
